@@ -16,6 +16,17 @@ import (
 
 var verifDir = "/verif"
 
+func parallelism() int {
+	n := 14
+	if v := os.Getenv("GOVC_PAR"); v != "" {
+		fmt.Sscan(v, &n)
+	}
+	if n < 1 {
+		n = 1
+	}
+	return n
+}
+
 func main() {
 	if len(os.Args) < 2 {
 		fmt.Fprintln(os.Stderr, "usage: govc fn|check|dump ...")
@@ -159,7 +170,7 @@ func cmdFn(args []string) {
 			continue
 		}
 		t1 := time.Now()
-		g, res, err := verifyFunc(w, fn, *lite, *depth, nil, dischargeOpts{dir: *out, timeout: *timeout, parallel: 14, keep: *keep})
+		g, res, err := verifyFunc(w, fn, *lite, *depth, nil, dischargeOpts{dir: *out, timeout: *timeout, parallel: parallelism(), keep: *keep})
 		if err != nil {
 			fmt.Println(err)
 			failed++
@@ -393,7 +404,7 @@ func cmdCheck(args []string) {
 				continue
 			}
 			funcs = append(funcs, u.Func)
-			g, res, err := verifyFunc(w, fn, u.Lite, u.depth(), u.Exclude, dischargeOpts{dir: smtDir, timeout: timeout, parallel: 14, cross: *tier == "thorough", keep: *keep})
+			g, res, err := verifyFunc(w, fn, u.Lite, u.depth(), u.Exclude, dischargeOpts{dir: smtDir, timeout: timeout, parallel: parallelism(), cross: *tier == "thorough", keep: *keep})
 			if err != nil {
 				engineErrors = append(engineErrors, err.Error())
 				continue
